@@ -232,8 +232,24 @@ func genC05(c *Ctx) {
 			default:
 				probe, src = fmt.Sprintf("proto:%d", i), fmt.Sprintf("o%d.proto", i)
 			}
+			// disturbances: evaluations that read the objects (merging, unpacking, comparing, printing, failing lookups
+			// recovered by ~.) and must leave every later lookup unchanged
+			disturb := ""
+			if c.Rng.Intn(3) == 0 {
+				a, b := c.Rng.Intn(nobj), c.Rng.Intn(nobj)
+				disturb = []string{
+					fmt.Sprintf("{**o%d, **o%d}", a, b), fmt.Sprintf("{|a: 0, zz: 0| a}(**o%d, **o%d)", a, b), fmt.Sprintf("([o%d] == [o%d])", a, b),
+					fmt.Sprintf("o%d.S", a), fmt.Sprintf("%%{**o%d, **o%d}", a, b), fmt.Sprintf("{**o%d}.bear({q: 1})", a), fmt.Sprintf("o%d.bear.keys", a),
+					"bad := {_missing: m{|n| raise ValueErr.new(\"no\")}}.bear({}); (1:70).A@{|k| bad~.foo}.len",
+					fmt.Sprintf("(1:70).A@{|k| o%d~.nonexistent(k)}.len", a), fmt.Sprintf("{**o%d, **o%d, **o%d}.keys", b, a, b),
+				}[c.Rng.Intn(10)]
+			}
 			if !mine {
 				continue
+			}
+			if disturb != "" {
+				c.It.RunIn(env, disturb+"\n", "", defaultFuel)
+				hist = append(hist, disturb)
 			}
 			bi := "-"
 			if strings.Contains(probe, ":"+name) {
